@@ -2746,7 +2746,8 @@ class TLSConnection(TLSRecordLayer):
                     self._pickServerKeyExchangeSig(settings,
                                                    clientHello,
                                                    cert_chain,
-                                                   privateKey)
+                                                   privateKey,
+                                                   version)
             except TLSHandshakeFailure as alert:
                 for result in self._sendError(
                         AlertDescription.handshake_failure,
@@ -4612,7 +4613,8 @@ class TLSConnection(TLSRecordLayer):
             sigHash, serverCertChain, privateKey = \
                 self._pickServerKeyExchangeSig(settings, clientHello,
                                                serverCertChain,
-                                               privateKey)
+                                               privateKey,
+                                               serverHello.server_version)
         except TLSHandshakeFailure as alert:
             for result in self._sendError(
                     AlertDescription.handshake_failure,
@@ -5389,6 +5391,13 @@ class TLSConnection(TLSRecordLayer):
                 # the error checking was done before hand, likely we're
                 # doing PSK key exchange
                 return None, certList, private_key
+
+        if version < (3, 3):
+            # before TLS 1.2 the signature in Server Key Exchange has a fixed
+            # form (MD5+SHA-1 with RSA, SHA-1 otherwise), the
+            # signature_algorithms extension, that a client offering also
+            # later versions sends, does not apply to it
+            return "sha1", certList, private_key
 
         if hashAndAlgsExt is None or hashAndAlgsExt.sigalgs is None:
             # RFC 5246 states that if there are no hashes advertised,
